@@ -23,6 +23,13 @@ func planC10(c *Ctx) epochPlan {
 	}
 	// dedicated scenario of the known finding (AgeSignificance 0: adjusted fitness collapses to 0)
 	pl.scenarios = append(pl.scenarios, EpochScenario{Seed: "hbd3", Cfg: 31, Fit: 4, Policy: "R3", Mode: "whole", Epochs: 3})
+	// a sizeable species whose champion lists its genes out of innovation order, both executors
+	// (the parallel one sends every baby, the champion's clone included, through the plain encoding)
+	for _, pol := range []string{"M", "A", "R1"} {
+		for _, mode := range []string{"par", "whole"} {
+			pl.scenarios = append(pl.scenarios, EpochScenario{Seed: "hbu", Cfg: 0, Fit: 4, Policy: pol, Mode: mode, Epochs: 2})
+		}
+	}
 	return pl
 }
 
